@@ -147,6 +147,18 @@ def run(rep, tier, seed, replay=None):
                     body = len(rules).to_bytes(2, "little") + b"".join(k + b"\0" + val + b"\0" for k, val in rules)
                     b2.script[0] = b2.script[0][:seg[0] + seg[1]] + [b"\xff\xff\xff\xff\x45" + body]
                     variants.append(("bat-rules", b2))
+            # a players reply that lists players WITHOUT a name (connecting players) next to named ones: every path returns
+            # every listed player
+            v_ = netprops.Valid(raw, "valve")
+            seg_ = v_.seg()
+            if seg_[1] > 0 and d["id"] not in ("theship",):
+                pl = base.script[0][seg_[0] + seg_[1] - 1]
+                if pl is not None and pl[:5] == b"\xff\xff\xff\xffD":
+                    names = [b"alice", b"", b"carol", b"", b" "]
+                    body = bytes([len(names)]) + b"".join(bytes([i]) + nm + b"\0" + (7 * i).to_bytes(4, "little") + b"\x00\x00\x80\x3f" for i, nm in enumerate(names))
+                    b3 = base.clone()
+                    b3.script[0][seg_[0] + seg_[1] - 1] = b"\xff\xff\xff\xffD" + body
+                    variants.append(("nameless-players", b3))
             mc, what = netcases.mutate(base, rnd)
             variants.append((what, mc))
             if k == 0:
